@@ -45,7 +45,7 @@ func (r *ResponseFilter) Filter(msg proto.Message) {
 		proto.Reset(msg)
 		return
 	}
-	fmutils.Filter(msg, r.fields.GetPaths())
+	fmutils.Filter(msg, r.paths())
 }
 
 // FilterClone is like Filter but clones and returns a new msg instead of modifying the original.
@@ -62,8 +62,14 @@ func (r *ResponseFilter) FilterClone(msg proto.Message) proto.Message {
 		return clone
 	}
 	clone := proto.Clone(msg)
-	fmutils.Filter(clone, r.fields.GetPaths())
+	fmutils.Filter(clone, r.paths())
 	return clone
+}
+
+// paths returns the mask's paths normalised, so that a path that is also covered by one of
+// its parents does not narrow that parent (fmutils lets the child replace the parent).
+func (r *ResponseFilter) paths() []string {
+	return fieldmaskpb.Union(r.fields, nil).GetPaths()
 }
 
 type ResponseFilterOption func(*ResponseFilter)
